@@ -28,7 +28,7 @@ except Exception:  # noqa: BLE001
 PROPERTY = "C19"
 LEVEL = "exploration"
 TIERS = {
-    "quick": {"wall": 33, "optimize_wall": 7, "chunk": 40, "shrink_budget": 300, "shrink_wall": 60},
+    "quick": {"max_runs": 3000, "optimize_runs": 600, "wall": 420, "optimize_wall": 180, "chunk": 40, "shrink_budget": 300, "shrink_wall": 60},
     "thorough": {"wall": 600, "optimize_wall": 90, "chunk": 100, "shrink_budget": 600, "shrink_wall": 240},
 }
 RULE = (
